@@ -48,6 +48,7 @@ def blocks(tier):
     for n in (254, 255, 256, 257, 65535, 65536):
         B.append(("many", n))
     B.append(("neg",))
+    B.append(("reuse",))
     return B
 
 
@@ -62,6 +63,11 @@ def run_block(block, acc):
             for lab in (1, 200):
                 for side in ("pred", "ref", "both"):
                     run_case({"kind": "many", "n": block[1], "dim": dim, "label": lab, "side": side}, acc)
+    elif kind == "reuse":
+        for a in range(len(REUSE_MAPS)):
+            for b in range(len(REUSE_MAPS)):
+                for backend in BACKENDS:
+                    run_case({"kind": "reuse", "a": a, "b": b, "backend": backend}, acc)
     else:
         for i in range(3**4):
             run_case({"kind": "neg", "i": i}, acc)
@@ -104,8 +110,42 @@ def _approx(acc, case, tag, pred, ref, backend):
         return None
 
 
+REUSE_MAPS = [
+    [1, 1, 0, 2, 2, 1, 0, 1],
+    [[1, 0, 2], [0, 1, 2], [2, 0, 0]],
+    [[1, 2, 2], [1, 1, 2], [0, 0, 1]],
+    [[[1, 0], [0, 0]], [[0, 0], [0, 1]]],
+    [[[1, 2], [2, 0]], [[0, 0], [1, 1]]],
+    [[[1, 1, 0]], [[0, 2, 2]]],
+]
+
+
+def _reuse(case, acc):
+    """ONE approximator object used for two maps in a row (possibly of different dimensionality): the second result must be
+    what a fresh approximator gives"""
+    a, b, backend = case["a"], case["b"], case["backend"]
+    acc.case("reuse", a, b, backend)
+    A, B = np.array(REUSE_MAPS[a], dtype=np.uint8), np.array(REUSE_MAPS[b], dtype=np.uint8)
+    tag = f"backend={backend}: one approximator used for a {A.ndim}-D map and then for the {B.ndim}-D map {B.tolist()}"
+    acc.step(2)
+    try:
+        ap = make_approximator(backend)
+        ap.approximate_instances(SemanticPair(A.copy(), A.copy()))
+        out = ap.approximate_instances(SemanticPair(B.copy(), B.copy()))
+    except Exception as e:
+        acc.violation(f"C05:reuse_raised:{type(e).__name__}", case, f"{tag}: raised {e!r}")
+        return
+    acc.state("reuse", a, b, backend)
+    if A.ndim != B.ndim:
+        acc.nontriv("reuse", a, b, backend)
+    if partition_check(acc, case, tag, B, out.prediction_arr, out.n_prediction_instance, backend, "second use"):
+        acc.ok()
+
+
 def run_case(case, acc):
     kind = case["kind"]
+    if kind == "reuse":
+        return _reuse(case, acc)
     if kind == "many":
         return _many(case, acc)
     if kind == "neg":
